@@ -369,6 +369,12 @@ func (m *c15Model) step(s *mState, in *c15Input, out *OpResult) ([]*mState, stri
 			want = plan.Int(a)
 		case "len(s) + a":
 			want = plan.Int(int64(len(str)) + a)
+		case "ab - a":
+			want = plan.Int(op.Val.M["ab"].I - a)
+		case "abc - ab + a":
+			want = plan.Int(op.Val.M["abc"].I - op.Val.M["ab"].I + a)
+		case "cpy + 1":
+			want = plan.Int(op.Val.M["cpy"].I + 1)
 		}
 		if out.HasErr || out.Val == nil || !valueMatches(*out.Val, want, nil) {
 			return nil, fmt.Sprintf("Eval(%q) returned %s, expected %s", op.Expr, out.Outcome(), want.Key())
